@@ -8,6 +8,11 @@
 (*          it is an integer), ph = Phase::next_phase, q = Step::step,     *)
 (*          sine, saw, square, simplex, the half-period twin (anti, aph),  *)
 (*          pull counts of every instrumented frequency signal.            *)
+(*          cfg.exh >= 0 (hz mode): every frequency signal reports         *)
+(*          is_exhausted() once it has been pulled exh times and goes on   *)
+(*          yielding its frequencies (o.exhd = what each reports now).     *)
+(*          The property does not let the oscillator off: still one pull   *)
+(*          per output and the same phase recurrence.                      *)
 (*          `agg` = a long run reported as extremes.                       *)
 (*   noise  `next` on instance 0 (original), 1 (restart), 2 (clone).       *)
 (* Accepted iff (layer 1 of Osc.tla)                                       *)
@@ -29,7 +34,7 @@ vars == << l, comp, st, nz, skip >>
 Ev == Rec[l]
 
 FZ == FZeroF(0)
-St0 == [mode |-> "none", rate |-> FZ, ratei |-> -1, pn |-> -1, n |-> 0, pk |-> "start", ph |-> FZ, q |-> FZ, chz |-> FZ]
+St0 == [mode |-> "none", rate |-> FZ, ratei |-> -1, exh |-> -1, pn |-> -1, n |-> 0, pk |-> "start", ph |-> FZ, q |-> FZ, chz |-> FZ]
 Nz0 == [log |-> << >>, idx |-> << -1, -1, -1 >>]
 
 Pow2s == {Pow2Small(k) : k \in 0..24}
@@ -47,6 +52,7 @@ AcceptResetOsc ==
   /\ c.mode \in {"const", "hz"} /\ Ev.r.k = "unit" /\ Ev.o.ok
   /\ Fin(c.rate) /\ DSign(D(c.rate)) = 1                      \* domain: rate > 0
   /\ (c.ratei >= 0 => DEq(D(c.rate), DFromInt(c.ratei)))
+  /\ c.exh >= -1 /\ (c.mode = "const" => c.exh = -1)
 
 \* frequency argument: finite, non-negative, hzi (when given) is the same number
 HzOK(a) == /\ Fin(a.hz) /\ DSign(D(a.hz)) >= 0
@@ -65,6 +71,10 @@ PhaseOK(ph) ==
        [] OTHER -> TRUE
 
 \* exact rational phase pn / ratei of THIS frame (integer domain), -1 otherwise
+\* (binding) after `pulled` pulls every frequency signal reports exhaustion iff its threshold is reached
+SrcExhausted(pulled) == st.exh >= 0 /\ pulled >= st.exh
+ExhOK(pulled) == Len(Ev.o.exhd) = 6 /\ AllEq(Ev.o.exhd, SrcExhausted(pulled))
+
 NextPn(a) == IF st.pn >= 0 /\ a.hzi >= 0 /\ st.ratei >= 1 THEN (st.pn + a.hzi) % st.ratei ELSE -1
 
 SineOK(v, has_anti) ==
@@ -98,7 +108,8 @@ AcceptNext ==
      /\ RangeAccept(v.simplex)
      /\ SineOK(v, Ev.o.has_anti)
      /\ IF st.mode = "hz"
-          THEN /\ Len(Ev.o.pulls) = 6 /\ AllEq(Ev.o.pulls, n1)          \* one frequency frame per output
+          THEN /\ Len(Ev.o.pulls) = 6 /\ AllEq(Ev.o.pulls, n1)          \* one frequency frame per output,
+               /\ ExhOK(n1)                                              \* exhausted-reporting signal or not
                /\ Ev.o.has_anti /\ Len(Ev.o.apulls) = 2 /\ AllEq(Ev.o.apulls, n1 + 1)
           ELSE Len(Ev.o.pulls) = 0 /\ ~Ev.o.has_anti
 
@@ -110,7 +121,7 @@ AcceptAgg ==
      /\ \A i \in 1..5 : Fin(v.lo[i]) /\ Fin(v.hi[i]) /\ DLe(D(v.lo[i]), D(v.hi[i]))
      /\ DLe(DZero, D(v.lo[1])) /\ DLt(D(v.hi[1]), DOne)                \* phase in [0, 1)
      /\ \A i \in 2..5 : DLe(DFromInt(-1), D(v.lo[i])) /\ DLe(D(v.hi[i]), DOne)
-     /\ (st.mode = "hz" => Len(Ev.o.pulls) = 6 /\ AllEq(Ev.o.pulls, st.n + a.n))
+     /\ (st.mode = "hz" => Len(Ev.o.pulls) = 6 /\ AllEq(Ev.o.pulls, st.n + a.n) /\ ExhOK(st.n + a.n))
      /\ (st.mode = "const" => Len(Ev.o.pulls) = 0)
 
 ---------------------------------------------------------------------------
@@ -136,7 +147,7 @@ TReset ==
   /\ Consume /\ Ev.ev = "reset"
   /\ IF Ev.comp = "osc" /\ AcceptResetOsc
        THEN /\ comp' = "osc" /\ skip' = FALSE /\ nz' = Nz0
-            /\ st' = [St0 EXCEPT !.mode = Ev.cfg.mode, !.rate = Ev.cfg.rate, !.ratei = Ev.cfg.ratei,
+            /\ st' = [St0 EXCEPT !.mode = Ev.cfg.mode, !.rate = Ev.cfg.rate, !.ratei = Ev.cfg.ratei, !.exh = Ev.cfg.exh,
                                  !.pn = IF Ev.cfg.ratei >= 1 THEN 0 ELSE -1]
      ELSE IF Ev.comp = "noise" /\ AcceptResetNoise
        THEN comp' = "noise" /\ skip' = FALSE /\ st' = St0 /\ nz' = [log |-> << >>, idx |-> << 0, -1, -1 >>]
